@@ -128,6 +128,24 @@ pub fn set_thread_entropy(seed: u64) {
     ENTROPY.with(|e| e.set((seed | 1, 0)));
 }
 
+/// Build process-wide fixtures (model pools) on a thread with a fixed entropy seed, so that
+/// models whose construction iterates hash maps (group contribution) are bit-identical in
+/// every process and independent of which run happens to trigger their construction.
+pub fn with_fixed_entropy<T: Send + 'static>(f: impl FnOnce() -> T + Send + 'static) -> T {
+    std::thread::Builder::new()
+        .stack_size(64 << 20)
+        .spawn(move || {
+            set_thread_entropy(0xF1C5_ED00_5EED);
+            f()
+        })
+        .expect("spawn fixture thread")
+        .join()
+        .unwrap_or_else(|_| {
+            eprintln!("harness error: building the model pool panicked: {:?}", take_last_panic());
+            std::process::exit(2)
+        })
+}
+
 pub fn entropy_requests() -> u64 {
     ENTROPY.with(|e| e.get().1)
 }
